@@ -260,6 +260,7 @@ DEFAULT_OPTS = {
     "shuffle_sections": True,
     "prefer_species": None,
     "species_override_prob": 0.2,
+    "placeholders_prob": 0.0,
 }
 
 
@@ -414,6 +415,8 @@ def gen_model(rng, opts=None):
     if o["shuffle_sections"]:
         rng.shuffle(sections)
 
+    if o.get("placeholders_prob") and rng.random() < o["placeholders_prob"]:
+        add_placeholders(rng, sections)
     spec = {"sections": sections,
             "meta": {"kind": kind, "target": target, "binary": target in BINARY_TARGETS,
                      "nr": nr, "nrho": nrho, "cutoff": cutoff, "cutoff_rho": cutoff_rho,
@@ -424,6 +427,45 @@ def gen_model(rng, opts=None):
 
 
 FUNCTION_SECTIONS = ["Pair", "EAM-Embed", "EAM-Density", "EAM-ADP-Dipole", "EAM-ADP-Quadrupole"]
+
+_PURE_NUMBER = None
+
+
+def add_placeholders(rng, sections):
+    """Replace a few numeric parameters by ${Params:NAME} placeholders (extended interpolation across
+    sections) and add the [Params] section that defines them."""
+    import re
+    global _PURE_NUMBER
+    if _PURE_NUMBER is None:
+        _PURE_NUMBER = re.compile(r"^-?\d+\.\d+$")
+    sec_name = rng.choice(["Params", "Params", "Constants"])
+    params = []
+    cands = []
+    for s in sections:
+        if s["name"] in FUNCTION_SECTIONS:
+            for e in s["entries"]:
+                toks = e[1].split(" ")
+                for ti, t in enumerate(toks):
+                    if _PURE_NUMBER.match(t):
+                        cands.append((e, ti))
+    rng.shuffle(cands)
+    used = {}
+    for e, ti in cands[:rng.randint(1, 4)]:
+        toks = e[1].split(" ")
+        if ti >= len(toks) or not _PURE_NUMBER.match(toks[ti]):
+            continue
+        val = toks[ti]
+        if val in used and rng.random() < 0.5:
+            name = used[val]
+        else:
+            name = "p%d" % len(params)
+            params.append([name, val])
+            used[val] = name
+        toks[ti] = "${%s:%s}" % (sec_name, name)
+        e[1] = " ".join(toks)
+    if params:
+        sections.insert(rng.randint(0, len(sections)), {"name": sec_name, "entries": params})
+    return bool(params)
 
 
 def function_entries(spec):
